@@ -38,6 +38,10 @@ def emit_cells(thorough):
         if not thorough and (not selfc) and (adv or percert):
             continue
         out.append(dict(t='emit', layout=layout, sr=sr, sa=sa, enc=enc, adv=adv, selfc=selfc, percert=percert, seq=False))
+    # PEFIM profile: the attributes travel in an advice assertion that is always encrypted; with encrypt_assertion the
+    # main assertion (subject, conditions) must be encrypted as well
+    for layout, sr, sa, enc, percert in itertools.product(('one', 'two', 'none'), (False, True), (False, True), (False, True), (None, 'spXenc2', 'spY')):
+        out.append(dict(t='emit', layout=layout, sr=sr, sa=sa, enc=enc, adv=True, selfc=True, percert=percert, seq=False, pefim=True))
     # sequences on one long-lived Server: metadata certificate first, then a per-request certificate (and reverse)
     for first, second in ((None, 'spXenc2'), ('spXenc2', None), ('spXenc2', 'spY'), (None, None)):
         out.append(dict(t='emit', layout='one', sr=True, sa=True, enc=True, adv=False, selfc=True, percert=second, seq=True, first=first))
@@ -61,6 +65,8 @@ def emit_once(idp, c, percert):
     nid = saml.NameID(text=MARK['subject'], format=saml.NAMEID_FORMAT_PERSISTENT)
     kw = dict(sign_response=c['sr'], sign_assertion=c['sa'], encrypt_assertion=c['enc'], encrypted_advice_attributes=c['adv'],
               encrypt_assertion_self_contained=c['selfc'])
+    if c.get('pefim'):
+        kw['pefim'] = True
     if percert:
         kw['encrypt_cert_assertion'] = world.cert_b64(percert)
         if c['adv']:
@@ -87,13 +93,21 @@ def evaluate_emit(c):
     has_cert = c['layout'] != 'none' or c['percert']
     recipient = c['percert'] or {'one': 'spXenc1', 'two': 'spXenc1', 'none': None}[c['layout']]
     main_encrypted = c['enc'] and has_cert
-    if not main_encrypted:
+    advice_only = c.get('pefim') and has_cert and not c['enc']
+    if not main_encrypted and not advice_only:
         return {'outcome': 'not-encrypted-no-cert' if c['enc'] else 'advice-only', 'bad': None}
     bad = None
     for d in decodings(text):
-        for k in ('subject', 'attr_name', 'attr_value', 'given'):
+        # advice-only: the main assertion (and its subject) legitimately stays in clear, the attributes do not
+        for k in (('attr_name', 'attr_value', 'given') if advice_only else ('subject', 'attr_name', 'attr_value', 'given')):
             if MARK[k] in d:
                 bad = 'marker-in-clear:%s' % k
+    if advice_only:
+        if not bad:
+            dec, full = oracle.decrypt_all(text, [recipient])
+            if MARK['attr_value'] not in dec:
+                bad = 'advice-not-decryptable-with-recipients-key'
+        return {'outcome': 'advice-encrypted', 'bad': bad}
     if not bad:
         dec, full = oracle.decrypt_all(text, [recipient])
         if not full or MARK['subject'] not in dec or MARK['attr_value'] not in dec:
@@ -217,6 +231,11 @@ def accept_cells(thorough):
     for name, layout, wants in itertools.product(UNDEC, ('first', 'second'), WANTS):
         out.append(dict(t='undec', how=name, layout=layout, wants=wants, resp_signed=True))
         out.append(dict(t='undec', how=name, layout=layout, wants=wants, resp_signed=False))
+    # one long-lived SP holding two key pairs: valid responses encrypted for either key, in every order (<= 3)
+    for n in (1, 2, 3):
+        for seq in itertools.product(('spXenc1', 'spXenc2'), repeat=n):
+            for rs in (False, True):
+                out.append(dict(t='rotation', keys=list(seq), resp_signed=rs, wants=(False, False, True)))
     # signature wrapping inside the ciphertext: the C01 grammar around an assertion-signed start, then encrypted
     n = 0
     start = c01.start_doc('A')
@@ -262,6 +281,20 @@ def evaluate_accept(c):
             elif e['identity']['name_id'][0] != 'alice':
                 bad = 'wrong-identity'
         return {'enc': [e['accept'], e.get('exc')], 'plain': [p['accept'], p.get('exc')], 'bad': bad}
+    if c['t'] == 'rotation':
+        _c.pop(('sp', 'second', tuple(c['wants']), False), None)
+        sp = sp_for('second', tuple(c['wants']))
+        bad = None
+        trace = []
+        for i, k in enumerate(c['keys']):
+            doc = build_doc('valid-signed', True, c['resp_signed'], encrypt_for=k)
+            e = oracle.accept_response(sp, doc, outstanding=OUTSTANDING)
+            trace.append([k, e['accept'], e.get('exc')])
+            if not e['accept'] or e['identity']['name_id'][0] != 'alice' or not e['identity']['ava']:
+                bad = 'valid-response-for-a-held-key-not-read-at-step-%d:%s' % (i, e.get('exc') or 'empty-identity')
+                break
+        _c.pop(('sp', 'second', tuple(c['wants']), False), None)
+        return {'enc': [bad is None, None], 'bad': bad, 'trace': trace}
     if c['t'] == 'undec':
         sp = sp_for(c['layout'], tuple(c['wants']))
         u = UNDEC[c['how']]
@@ -349,7 +382,7 @@ def run(ctx):
             'states': len(cs), 'transitions': len(cs) + per.get('accept', 0), 'traces_validated_against_impl': len(cs) + per.get('accept', 0),
             'samples': [{'cell': {k: str(v)[:80] for k, v in cs[i].items() if k != 'doc'}, 'result': res[i]} for i in (0, len(cs) // 2, len(cs) - 1)],
             'exhaustive': True, 'per_layer': per, 'accepted': acc, 'distinct_outcomes': len(hist), 'outcome_histogram': hist,
-            'rule': '(a) emit: SP encryption certificates in metadata (one, two, none) x sign_response x sign_assertion x encrypt_assertion x encrypted_advice_attributes x self-contained x per-request certificate (absent, two different) + two-step sequences on one Server; leak scan over the emitted text and its base64/percent/entity decodings for unique subject / attribute-name / attribute-value markers, decryption with the recipient key required and with each of the 9 other keys of the world forbidden. (b) accept: %d inner-assertion variants (valid, signature content/value tampered, foreign key, wrong issuer, Conditions/SCD/Session expired, not yet valid, audience other / mixed restrictions, SCD InResponseTo naming another outstanding request with the same and a different came_from, unknown request) x SP key layout (first key, second key, none, outstanding_certs key) x 4 requirement settings x response signed/unsigned, each also in plain form; %d undecryptable variants; the C01 wrapping grammar inside the ciphertext; tampered encrypted advice' % (len(INNER), len(UNDEC)),
+            'rule': '(a) emit: SP encryption certificates in metadata (one, two, none) x sign_response x sign_assertion x encrypt_assertion x encrypted_advice_attributes x self-contained x per-request certificate (absent, two different), the PEFIM profile (attributes in an always-encrypted advice assertion, with and without encryption of the main assertion) + two-step sequences on one Server; leak scan over the emitted text and its base64/percent/entity decodings for unique subject / attribute-name / attribute-value markers, decryption with the recipient key required and with each of the 9 other keys of the world forbidden. (b) accept: %d inner-assertion variants (valid, signature content/value tampered, foreign key, wrong issuer, Conditions/SCD/Session expired, not yet valid, audience other / mixed restrictions, SCD InResponseTo naming another outstanding request with the same and a different came_from, unknown request) x SP key layout (first key, second key, none, outstanding_certs key) x 4 requirement settings x response signed/unsigned, each also in plain form; %d undecryptable variants; the C01 wrapping grammar inside the ciphertext; tampered encrypted advice; every sequence of up to 3 valid responses encrypted for either key of one long-lived SP holding two key pairs (each must be read)' % (len(INNER), len(UNDEC)),
         },
         'assumptions': ['xmlsec1 model at the seam (template-driven 3DES/RSA-1_5 encryption, first EncryptedData per run)', 'markers are unique strings so that a substring scan decides leakage'],
     }
